@@ -73,6 +73,7 @@ type Profile struct {
 	WalStmts        int     // number of statements whose every log event gets an image
 	RawDMLOnly      bool    // raw statements: SELECT, INSERT, UPDATE, DELETE only (the model keeps following the tables)
 	LazyWakeP       float64 // probability that a plan runs with Knobs.LazyWake
+	OpenFailP       float64 // probability that a USE of another database meets an open error (EMFILE) at the log or data file
 	FatP            float64 // probability that a plan's tables hold only rows within a few bytes of the row limit (leaves of 8 maximal cells)
 	fat             bool
 	StrictFlushOnly bool // flush images only of the classes the engine is expected to survive (everything but C04)
@@ -339,7 +340,81 @@ func (g *gen) tagRange(db string, t *MTable) (lo, hi int64) {
 	return 0, g.tags[db+"."+t.Name]
 }
 
+// genWhere: a condition on the tag column and, now and then, a further
+// ordering comparison on another integer column (INT or BIGINT) against a
+// constant from the whole 64-bit range - only on columns that hold no NULL in
+// any row (an ordering comparison with NULL is an error in the engine).
 func (g *gen) genWhere(db string, t *MTable, small bool) *Cond {
+	w := g.genWhereTag(db, t, small)
+	if !g.r.Chance(0.18) || len(t.Rows) == 0 {
+		return w
+	}
+	var cand []int
+	for i, c := range t.Cols {
+		if c.Name == "k" || (c.Type != TInt && c.Type != TBigInt) {
+			continue
+		}
+		ok := true
+		for _, r := range t.Rows {
+			if r.Vals[i].K != "i" {
+				ok = false
+				break
+			}
+		}
+		if ok {
+			cand = append(cand, i)
+		}
+	}
+	if len(cand) == 0 {
+		return w
+	}
+	ci := cand[g.r.Intn(len(cand))]
+	var x int64
+	switch g.r.Intn(6) {
+	case 0:
+		x = []int64{math.MinInt64, math.MaxInt64, math.MinInt64 + 1, math.MaxInt64 - 1}[g.r.Intn(4)]
+	case 1:
+		x = []int64{0, 1, -1, 2, math.MaxInt32, math.MinInt32, 1 << 32, -(1 << 32)}[g.r.Intn(8)]
+	default:
+		// around a stored value
+		x = t.Rows[g.r.Intn(len(t.Rows))].Vals[ci].I
+		switch g.r.Intn(3) {
+		case 0:
+			if x < math.MaxInt64 {
+				x++
+			}
+		case 1:
+			if x > math.MinInt64 {
+				x--
+			}
+		}
+	}
+	c := Cmp{t.Cols[ci].Name, []string{"<", "<=", ">", ">=", "=", "!="}[g.r.Intn(6)], Int(x)}
+	switch {
+	case w == nil || len(w.Cmps) == 0:
+		if small {
+			return w
+		}
+		return &Cond{Cmps: []Cmp{c}}
+	case len(w.Cmps) == 1:
+		op := []string{"and", "and", "or"}[g.r.Intn(3)]
+		if small {
+			op = "and"
+		}
+		return &Cond{Op: op, Cmps: []Cmp{w.Cmps[0], c}}
+	default:
+		if small && w.Op == "or" {
+			return w
+		}
+		// position matters for short-circuit evaluation: first or last
+		if g.r.Chance(0.5) {
+			return &Cond{Op: w.Op, Cmps: append([]Cmp{c}, w.Cmps...)}
+		}
+		return &Cond{Op: w.Op, Cmps: append(append([]Cmp(nil), w.Cmps...), c)}
+	}
+}
+
+func (g *gen) genWhereTag(db string, t *MTable, small bool) *Cond {
 	_, hi := g.tagRange(db, t)
 	if hi == 0 {
 		hi = 1
@@ -570,7 +645,8 @@ var outOfInt32 = []Val{Int(math.MaxInt32 + 1), Int(math.MinInt32 - 1), Int(math.
 
 // stmtFail makes a statement that must be refused.
 func (g *gen) stmtFail(db *MDB, t *MTable) Stmt {
-	kinds := []string{"unknown-table", "colcount", "type", "range", "size", "dup-table", "upd-size", "upd-type", "upd-range", "del-unknown", "upd-unknown", "create-long-name"}
+	kinds := []string{"unknown-table", "colcount", "type", "range", "size", "dup-table", "upd-size", "upd-type", "upd-range", "del-unknown", "upd-unknown", "create-long-name",
+		"ins-badcol", "upd-badcol", "create-dupcol"}
 	for tries := 0; tries < 8; tries++ {
 		kind := kinds[g.r.Intn(len(kinds))]
 		switch kind {
@@ -598,6 +674,72 @@ func (g *gen) stmtFail(db *MDB, t *MTable) Stmt {
 					over += g.r.Range(1, 60)
 				}
 				st.Cols[i].Name += strings.Repeat("c", over)
+			}
+			return st
+		case "create-dupcol":
+			// a column named twice
+			g.ntab++
+			st := Stmt{Kind: KCreate, Table: g.newName("t", g.ntab), Cols: g.genCols(), ViaText: g.r.Chance(0.5)}
+			if len(st.Cols) < 2 {
+				st.Cols = append(st.Cols, Col{Name: "x2", Type: TBigInt})
+			}
+			i := g.r.Intn(len(st.Cols))
+			j := (i + 1 + g.r.Intn(len(st.Cols)-1)) % len(st.Cols)
+			st.Cols[j].Name = st.Cols[i].Name
+			return st
+		case "ins-badcol", "upd-badcol":
+			if t == nil {
+				continue
+			}
+			// a column list / SET list naming an unknown column (also: known but in
+			// another letter case) or naming one column twice
+			names := colNamesOf(t.Cols)
+			j := g.r.Intn(len(names))
+			twin := -1
+			switch g.r.Intn(4) {
+			case 0:
+				names[j] = []string{"nosuch", "k2", "col", "_"}[g.r.Intn(4)]
+			case 1:
+				if up := strings.ToUpper(names[j]); up != names[j] {
+					names[j] = up
+				} else {
+					names[j] = strings.ToLower(names[j]) + "x"
+				}
+			default:
+				if len(names) < 2 {
+					names[j] = "nosuch"
+				} else {
+					twin = (j + 1 + g.r.Intn(len(names)-1)) % len(names)
+					names[j] = names[twin]
+				}
+			}
+			if kind == "ins-badcol" {
+				st := Stmt{Kind: KInsert, Table: t.Name, ColNames: names}
+				for n := g.r.Range(1, 3); n > 0; n-- {
+					st.Rows = append(st.Rows, g.genRow(db.Name, t, false))
+				}
+				if g.r.Chance(0.4) {
+					if _, ok := st.SQLText(); ok {
+						st.ViaText = true
+					}
+				}
+				return st
+			}
+			st := Stmt{Kind: KUpdate, Table: t.Name, Where: g.genWhere(db.Name, t, true)}
+			row := g.genRow(db.Name, t, false)
+			for i, nm := range names {
+				// the tag column keeps its value unless it is the spoilt entry
+				if t.Cols[i].Name == "k" && nm == "k" && i != twin {
+					continue
+				}
+				if i == j || i == twin || g.r.Chance(0.5) {
+					st.Set = append(st.Set, SetItem{nm, row[i]})
+				}
+			}
+			if g.r.Chance(0.4) && condTextOK(st.Where) {
+				if _, ok := st.SQLText(); ok {
+					st.ViaText = true
+				}
 			}
 			return st
 		case "dup-table":
@@ -830,6 +972,10 @@ func (g *gen) stmtRaw(db *MDB, t *MTable) Stmt {
 		func() string { return "SELECT 1 < 'a'" },
 		func() string { return fmt.Sprintf("SELECT avg(%s), count(*) FROM %s WHERE k < 0", col(), t.Name) },
 		func() string { return "CREATE TABLE " + t.Name + " (k INT)" },
+		func() string {
+			// a column named twice (accepted today; if a version refuses it, nothing may be left behind)
+			return fmt.Sprintf("CREATE TABLE dup%d (k INT, %s INT, c BIGINT, %s VARCHAR(20))", g.r.Intn(1000), []string{"a", "k"}[g.r.Intn(2)], []string{"a", "k", "c"}[g.r.Intn(3)])
+		},
 		func() string { return "CREATE TABLE x_" + t.Name + " ()" },
 		func() string {
 			return fmt.Sprintf("SELECT %s AS z, count(*) FROM %s GROUP BY z ORDER BY z", col(), t.Name)
@@ -934,7 +1080,7 @@ func (g *gen) stmtRaw(db *MDB, t *MTable) Stmt {
 				continue
 			}
 		}
-		if g.pf.RawDMLOnly && !isSelectText(q) && !isRawDML(q) {
+		if g.pf.RawDMLOnly && !isSelectText(q) && !isRawDML(q) && !strings.HasPrefix(q, "CREATE TABLE dup") {
 			continue
 		}
 		if g.pf.RawMutations || isSelectText(q) {
@@ -1278,6 +1424,22 @@ func (g *gen) genStmts(n int, small bool) []Stmt {
 			emit(Stmt{Kind: KUse, DB: g.respell(g.m.Order[g.r.Intn(len(g.m.Order))])})
 			continue
 		}
+		if len(g.m.Ghosts) > 0 && g.r.Chance(0.15) {
+			gh := g.m.Ghosts[g.r.Intn(len(g.m.Ghosts))]
+			switch g.r.Intn(4) {
+			case 0, 1:
+				emit(Stmt{Kind: KUse, DB: gh})
+			case 2:
+				emit(Stmt{Kind: KUse, DB: gh})
+				emit(Stmt{Kind: KCreateDB, DB: gh})
+			default:
+				emit(Stmt{Kind: KCreateDB, DB: gh})
+			}
+			if g.r.Chance(0.4) {
+				emit(Stmt{Kind: KRestart})
+			}
+			continue
+		}
 		maxTables := pf.Tables[1]
 		if t == nil || (len(db.Tables) < pf.Tables[0]) {
 			emit(g.stmtCreate())
@@ -1313,7 +1475,25 @@ func (g *gen) genStmts(n int, small bool) []Stmt {
 		case 6:
 			emit(g.stmtFail(db, t))
 		case 7:
-			emit(Stmt{Kind: KUse, DB: g.respell(g.m.Order[g.r.Intn(len(g.m.Order))])})
+			u := Stmt{Kind: KUse, DB: g.respell(g.m.Order[g.r.Intn(len(g.m.Order))])}
+			if pf.OpenFailP > 0 && strings.ToLower(u.DB) != g.m.Cur && g.r.Chance(pf.OpenFailP) {
+				// the open of the log (mostly) or of the data file fails once:
+				// the USE is refused, the session goes on with the database it
+				// had, and usually tries again a little later
+				u.OpenFail = "log"
+				if g.r.Chance(0.25) {
+					u.OpenFail = "data"
+				}
+				emit(u)
+				if g.r.Chance(0.8) {
+					if g.r.Chance(0.4) {
+						emit(g.stmtInsert(db, t, 1))
+					}
+					emit(Stmt{Kind: KUse, DB: u.DB})
+				}
+				continue
+			}
+			emit(u)
 		case 8:
 			if len(g.m.Order) < pf.DBs[1] {
 				g.ndb++
@@ -1558,10 +1738,15 @@ func Generate(pf *Profile, seed uint64) *Plan {
 		if i < len(stmts) {
 			st = models[i+1]
 		}
-		sel := ImageSel{Site: SiteBoundary, Stmt: i, Cont: g.genCont(st, 1)}
+		ghost := ""
 		if r.Chance(0.06) {
-			sel.GhostDir = []string{"aaa", "ghost1", "zzz", "db0", "lostfound"}[r.Intn(5)]
+			ghost = []string{"aaa", "ghost1", "zzz", "db0", "lostfound"}[r.Intn(5)]
+			// the continuation knows the half-made name: it selects it (refused,
+			// nothing may change), creates it, restarts
+			st = st.Clone()
+			st.Ghosts = append(st.Ghosts, ghost)
 		}
+		sel := ImageSel{Site: SiteBoundary, Stmt: i, Cont: g.genCont(st, 1), GhostDir: ghost}
 		p.Images = append(p.Images, sel)
 	}
 	if pf.WalStmts > 0 {
